@@ -68,7 +68,17 @@ def rows(ctx: Ctx):
             R.g = []
             row = {"op": "h2c", "g": g, "msg": list(msg), "dst": list(dst), "hash": hname}
             try:
-                P = (m.hash_to_G1 if g == 1 else m.hash_to_G2)(msg, dst, R)
+                fn_ = m.hash_to_G1 if g == 1 else m.hash_to_G2
+                if len(out) % 2:        # keyword arguments in another order (if the parameters still have these names)
+                    try:
+                        P = fn_(hash_function=R, DST=dst, message=msg)
+                    except TypeError:
+                        R.g = []
+                        del calls[:]
+                        del us[:]
+                        P = fn_(msg, dst, R)
+                else:
+                    P = fn_(msg, dst, R)
                 row.update({"H": {"kind": "graph", "b": hfn().digest_size, "s": hfn().block_size, "g": list(R.g)},
                             "calls": calls, "u": [[limbs(c) for c in _coeffs(e)] for e in us[0]] if us else [],
                             "uid": [I(e) for e in us[0]] if us else [], "ret": I(P),
